@@ -10,6 +10,7 @@ from __future__ import annotations
 import math
 
 import common
+import reuse
 from common import Check, Driver
 
 PROP = "C12"
@@ -358,6 +359,7 @@ def main():
     pairs_correspondence(chk, 120 if q else 1500)
     declared_correspondence(chk, 60 if q else 400)
     standalone(chk, 14 if q else 150)
+    reuse.analyze_after_mutation(chk, 4 if q else 24, "an entry differs from the metric analysed alone on the same data")
     chk.cov["rule"] = ("pairs: 1..5 variant ids (int/str/bool) x control present/absent/None x all_variants; "
                        "definitions: 1..6 metrics from {Mean, Mean+cov, ratio, ratio+cov, SampleRatio, Quantile, custom "
                        "aggregated, custom row-level} with overlapping columns, 2..4 variants, analysed in the experiment "
